@@ -139,7 +139,7 @@ func C03_Run(job string) {
 	case "string":
 		d := "pre"
 		if b == "string" {
-			s := v.String("s", 3)
+			s := v.String("s", 3+v.Tier())
 			n := 0
 			for n < len(s) {
 				n++
